@@ -66,11 +66,11 @@ type exitNow struct{}
 var (
 	// configuration
 	cfgPrintTemplate, cfgPrintCtrlI, cfgIcanhazip bool
-	cfgLogFile, cfgInsertFile                       string
+	cfgLogFile, cfgInsertFile                     string
 	// faults
 	failWriteStdout, failOpenLog, failConvert, failTTY, failSize, failRaw, failIcan, failHsrv bool
-	statClass                                                                                  int // 0 ok, 1 not exist, 2 other error, 3 empty file
-	groupClass                                                                                 int // 0 nil, 1 EOF, 2 wrapped EOF, 3 ErrOneShellClosed, 4 other
+	statClass                                                                                 int // 0 ok, 1 not exist, 2 other error, 3 empty file
+	groupClass                                                                                int // 0 nil, 1 EOF, 2 wrapped EOF, 3 ErrOneShellClosed, 4 other
 	// observations
 	exited       bool // log.Fatalf / os.Exit reached: deferred functions do not run in reality
 	exitStatus   int
@@ -116,9 +116,9 @@ func stubFlagBool(name string, value bool, usage string) *bool {
 }
 func stubFlagStringVar(p *string, name, value, usage string) {}
 func stubFlagFunc(name, usage string, fn func(string) error) {}
-func stubFlagParse()                                        {}
-func stubGetenv(k string) string                            { return "" }
-func stubDefaultCertFile() string                           { return "cert.txtar" }
+func stubFlagParse()                                         {}
+func stubGetenv(k string) string                             { return "" }
+func stubDefaultCertFile() string                            { return "cert.txtar" }
 func stubWriteString(w io.Writer, s string) (int, error) {
 	stdoutWrites++
 	if failWriteStdout {
@@ -134,9 +134,9 @@ func stubOpenFile(name string, flag int, perm fs.FileMode) (*os.File, error) {
 	}
 	return &os.File{}, nil
 }
-func stubFileClose(f *os.File) error               { return nil }
+func stubFileClose(f *os.File) error                  { return nil }
 func stubFileWrite(f *os.File, b []byte) (int, error) { stdoutWrites++; return len(b), nil }
-func stubFileFd(f *os.File) uintptr                { return 3 }
+func stubFileFd(f *os.File) uintptr                   { return 3 }
 func stubOsOpen(name string) (*os.File, error) {
 	if failTTY {
 		return nil, errCause
@@ -173,7 +173,7 @@ func stubFatalf(format string, v ...any) {
 func stubPrintf(format string, v ...any) { printfMsgs = append(printfMsgs, fmt.Sprintf(format, v...)) }
 
 func stubJSONHandler(w io.Writer, o *slog.HandlerOptions) *slog.JSONHandler { return nil }
-func stubSlogNew(h slog.Handler) *slog.Logger                            { return verifNewLogger() }
+func stubSlogNew(h slog.Handler) *slog.Logger                               { return verifNewLogger() }
 func stubConvFrom(c *shellfuncsfile.Converter, sources ...string) ([]byte, error) {
 	if failConvert {
 		return nil, errCause
@@ -226,7 +226,9 @@ func stubHsrvNew(sl *slog.Logger, addr, fdir, tmplf string, ich <-chan string, o
 	}
 	return &hsrv.Server{}, nil
 }
-func stubGoContext(g *ctxerrgroup.Group, ctx context.Context, f func(context.Context) error) { goContexts++ }
+func stubGoContext(g *ctxerrgroup.Group, ctx context.Context, f func(context.Context) error) {
+	goContexts++
+}
 func stubGroupWait(g *ctxerrgroup.Group) error {
 	waited++
 	switch groupClass {
